@@ -321,6 +321,7 @@ func runHistory(r *vx.Run, h []hreq) {
 	w := boot(disk)
 	defer w.cancel()
 	seenIK := map[string]result{}
+	storedBy := map[string]hreq{} // the request whose outcome a key stores
 	size := len(h)
 	for i, q := range h {
 		if q.API == "v1" && (q.Kind == "delaccmeta") {
@@ -337,6 +338,27 @@ func runHistory(r *vx.Run, h []hreq) {
 			}()
 			w.router.ServeHTTP(rec, q.http())
 		}()
+		in0 := map[string]any{"history": h, "failing_request": i}
+		if first, stored := storedBy[q.IK]; q.IK != "" && stored && !sameRequest(first, q) {
+			// the key stores the outcome of a DIFFERENT request: refused with a client error, nothing written, nothing
+			// published (a preview is refused too: the key is looked up before anything else)
+			r.Count("http:key-reused-for-a-different-request")
+			switch {
+			case pan != "":
+				r.FailP("C06", "http:key-reused-for-a-different-request:panic:"+q.API+":"+q.Kind, in0, pan, size)
+			case rec.Code >= 200 && rec.Code < 300:
+				r.FailP("C07", "http:key-reused-for-a-different-request-accepted:"+q.API+":"+q.Kind, in0, fmt.Sprintf("key %q stores the outcome of %s %s; status %d", q.IK, first.API, first.Kind, rec.Code), size)
+			case rec.Code < 400 || rec.Code >= 500:
+				r.FailP("C06", "http:key-reused-for-a-different-request:not-a-client-error:"+q.API+":"+q.Kind, in0, fmt.Sprintf("status %d", rec.Code), size)
+			}
+			if len(disk.Logs) != before {
+				r.FailP("C07", "http:key-reused-for-a-different-request-wrote:"+q.API+":"+q.Kind, in0, fmt.Sprintf("%d new entries", len(disk.Logs)-before), size)
+			}
+			if len(w.events) != evBefore {
+				r.FailP("C16", "http:key-reused-for-a-different-request-published:"+q.API+":"+q.Kind, in0, fmt.Sprint(w.events[evBefore:]), size)
+			}
+			continue
+		}
 		if pan != "" {
 			continue
 		}
@@ -424,6 +446,9 @@ func runHistory(r *vx.Run, h []hreq) {
 				}
 				if q.IK != "" {
 					seenIK[q.IK] = res
+					if added == 1 {
+						storedBy[q.IK] = q
+					}
 				}
 			}
 			if q.IK != "" && replay {
@@ -458,6 +483,39 @@ func runHistory(r *vx.Run, h []hreq) {
 	r.Case("", map[string]any{"history": h}, string(key), len(h) >= 3)
 }
 
+// sameRequest: q is the request whose outcome the key stores, as the engine compares them (kind and target: any two
+// transaction creations; reverts of the same transaction; metadata writes on the same target with the same content)
+func sameRequest(first, q hreq) bool {
+	class := func(k string) string {
+		if k == "script" {
+			return "create"
+		}
+		return k
+	}
+	if class(first.Kind) != class(q.Kind) {
+		return false
+	}
+	sameMeta := len(first.Meta) == len(q.Meta)
+	for k, v := range first.Meta {
+		sameMeta = sameMeta && q.Meta[k] == v
+	}
+	switch class(q.Kind) {
+	case "create":
+		return true
+	case "revert":
+		return first.TxID == q.TxID
+	case "accmeta":
+		return first.Account == q.Account && sameMeta
+	case "txmeta":
+		return first.TxID == q.TxID && sameMeta
+	case "delaccmeta":
+		return first.Account == q.Account && first.Key == q.Key
+	case "deltxmeta":
+		return first.TxID == q.TxID && first.Key == q.Key
+	}
+	return false
+}
+
 func gen(g *vx.Rng) []hreq {
 	accs := []string{"alice", "bob", "carol"}
 	dries := []string{"", "", "", "true", "TRUE", "yes", "1", "false", "no", "0"}
@@ -468,8 +526,8 @@ func gen(g *vx.Rng) []hreq {
 	n := 3 + g.Intn(6)
 	var keyed []hreq
 	for k := 0; k < n; k++ {
-		// an idempotency key is only ever reused for an exact retry of the same request (reuse for a different
-		// request is client misuse; its consequences are recorded as known findings of C06/C07/C16 in the engine suite)
+		// an idempotency key is reused for an exact retry of the same request (replayed), and, 1 in 6, for a DIFFERENT
+		// request of the same or another kind (refused: client error, nothing written, nothing published)
 		if len(keyed) > 0 && g.Chance(1, 4) {
 			h = append(h, keyed[g.Intn(len(keyed))])
 			continue
@@ -477,6 +535,10 @@ func gen(g *vx.Rng) []hreq {
 		q := hreq{API: []string{"v1", "v2"}[g.Intn(2)], Dry: dries[g.Intn(len(dries))]}
 		if g.Chance(1, 3) {
 			q.IK = fmt.Sprintf("key-%d", k)
+		}
+		reuse := ""
+		if len(keyed) > 0 && g.Chance(1, 6) {
+			reuse = keyed[g.Intn(len(keyed))].IK
 		}
 		switch c := g.Intn(10); {
 		case c < 4:
@@ -516,6 +578,11 @@ func gen(g *vx.Rng) []hreq {
 			}
 		default:
 			q.API, q.Kind, q.Account, q.Key = "v2", "delaccmeta", accs[g.Intn(3)], "k"
+		}
+		if reuse != "" {
+			q.IK = reuse
+			h = append(h, q)
+			continue
 		}
 		h = append(h, q)
 		if q.IK != "" && !isDry(q.Dry) {
